@@ -4,4 +4,5 @@
 f19_0:
   ret
   call f25_1
+  mov wvsv1(%rip),%rax
   ret
